@@ -30,3 +30,8 @@ func VerifReferrersState(r *Repository) int { return int(r.loadReferrersState())
 func VerifPingReferrers(ctx context.Context, r *Repository) (bool, error) {
 	return r.pingReferrers(ctx)
 }
+
+// VerifSetQueryParams re-exports setQueryParams.
+func VerifSetQueryParams(rawQuery string, kv ...string) string {
+	return setQueryParams(rawQuery, kv...)
+}
